@@ -381,6 +381,24 @@ pub fn gen(stream: &str, tier: &str, seed: u64) -> Vec<String> {
                 }
             }
         }
+        "valid" => {
+            let n = if thorough { 30_000 } else { 4_000 };
+            for i in 0..n {
+                let sz = Sizes { big: i % 60 == 0 };
+                if i % 2 == 0 {
+                    let p = gen_v3(&mut rng, (i / 2) % V3_TYPES, sz);
+                    if p.encode().is_ok() {
+                        out.push(format!("valid v3 {}", crate::v3text::show(&p)));
+                    }
+                } else {
+                    let pmode = [0u8, 0, 1, 2, 3, 4][(i / 2) % 6];
+                    let p = gen_v5(&mut rng, (i / 2) % V5_TYPES, sz, pmode, i / 12);
+                    if p.encode().is_ok() {
+                        out.push(format!("valid v5 {}", crate::v5text::show(&p)));
+                    }
+                }
+            }
+        }
         "v3short" => {
             // every string of length <= 2, every 2-byte header followed by short bodies
             out.push("dec v3 -".into());
